@@ -176,6 +176,40 @@ impl Prop for C09 {
                 f(Case::s(d));
             }
         }));
+        v.push(Scope::new("inv-many-parallel", "global invariant on 8..64 parallel vertical runs (2..3 rows, one column apart), parallel diagonals, stacked horizontal runs, and tables of 8..40 columns x 1..2 rows of cells (many groups open at once when a run continues on the next row)", |f| {
+            for n in [8usize, 15, 16, 17, 18, 20, 33, 64] {
+                for rows in 2..=3usize {
+                    for ch in ['|', '/', '\\', ':'] {
+                        let mut cv = shapes::Canvas::new();
+                        for k in 0..n {
+                            for r in 0..rows {
+                                let x = match ch {
+                                    '/' => 2 * k + (rows - 1 - r),
+                                    '\\' => 2 * k + r,
+                                    _ => 2 * k,
+                                };
+                                cv.put(x as i32, r as i32, if ch == ':' && r == 0 { '|' } else { ch });
+                            }
+                        }
+                        f(Case::s(cv.render()));
+                    }
+                }
+                // a table: n cells per row
+                for rows in 1..=2usize {
+                    let border: String = format!("+{}", "--+".repeat(n));
+                    let mid: String = format!("|{}", "  |".repeat(n));
+                    let mut t = vec![border.clone()];
+                    for _ in 0..rows {
+                        t.push(mid.clone());
+                        t.push(border.clone());
+                    }
+                    f(Case::s(t.join("\n")));
+                }
+                // n short horizontal runs per row, continued on no other row, over a long run below
+                let row: String = (0..n).map(|_| "-- ").collect();
+                f(Case::s(format!("{}\n{}\n{}", row, row, "-".repeat(3 * n))));
+            }
+        }));
         v.push(Scope::new("inv-nbhd2", "global invariant on every 2-character neighbourhood of the ASCII + unicode drawing alphabets", |f| {
             let mut a = shapes::sigma_ascii();
             a.extend(shapes::sigma_uni());
